@@ -400,9 +400,13 @@ def run(prog: Program, L: Ledger) -> None:
     nm = cd.methods.get("number_of_moved_particles")
     oknm = False
     if nm is not None:
-        r = [s for s in nm.body() if isinstance(s, ast.Return)]
-        if len(r) == 1 and isinstance(r[0].value, ast.Call) and norm(r[0].value.func) in ("sum", "len") and len(r[0].value.args) == 1:
-            g = r[0].value.args[0]
+        nmf = flat(prog, nm, cd)
+        ninl = Inliner(nmf.node)
+        r = [s for s in nmf.body() if isinstance(s, ast.Return)]
+        rv_ = ninl.inline(r[0].value) if len(r) == 1 and r[0].value is not None else None
+        if isinstance(rv_, ast.Call) and norm(rv_.func) in ("sum", "len") and len(rv_.args) == 1:
+            r = [ast.Return(value=rv_)]
+            g = ninl.inline(rv_.args[0])
             if isinstance(g, (ast.GeneratorExp, ast.ListComp)) and len(g.generators) == 1:
                 gen = g.generators[0]
                 tv = norm(gen.target)
